@@ -391,3 +391,114 @@ theorem ssUnion_entries {w : World} (hw : Wf w) {p : Nat} (hp : p < w.sets.lengt
           simp only [hlk, combineC, ← hne]
 
 end FpgoVerif.C04
+
+namespace FpgoVerif.C04
+open World
+
+theorem filterIdxFrom_noidx (q : Int → Bool) (l : List Int) : ∀ i, Spec.filterIdxFrom (fun x _ => q x) i l = l.filter q := by
+  induction l with
+  | nil => intro i; rfl
+  | cons a t ih =>
+    intro i
+    simp only [Spec.filterIdxFrom, List.filter_cons, ih]
+
+theorem minus_nil (l : List Int) : Spec.minus l [] = l := by
+  simp [Spec.minus, filter_const_true]
+
+theorem len_zero_iff {w : World} (hw : Wf w) (q : Nat) : (w.strHdr q).len = 0 ↔ w.strContent q = [] := by
+  rw [← strContent_length hw q]
+  exact List.length_eq_zero_iff
+
+/-- the sequence an optional stream argument denotes (`nil` = empty) -/
+def argContent (w : World) : Option Nat → List Int
+  | none => []
+  | some q => w.strContent q
+
+/-- the prescribed sequence of every unary Stream transformer -/
+def specS1 (iface : Bool) : S1 → List Int → List Int
+  | .map f, l => Spec.mapIdx (Spec.mapFn f) l
+  | .filter k, l => Spec.filterIdx (Spec.predFn k) l
+  | .reject k, l => Spec.rejectIdx (Spec.predFn k) l
+  | .notnil, l => Spec.notNil iface l
+  | .distinct, l => Spec.distinct l
+  | .clone, l => l
+  | .reverse, l => l.reverse
+  | .sort c, l => Spec.sortBy (Spec.lessFn c) l
+  | .sortidx c, l => Spec.sortBy (Spec.lessFn c) l
+  | .rmitem vs, l => Spec.minus l vs
+  | .append vs, l => l ++ vs
+  | .remove i, l => Spec.removeAt l i
+
+theorem execS1_content (iface : Bool) {w : World} (hw : Wf w) {p : Nat} (hp : p < w.strs.length) (k : S1) :
+    (execS1 iface w p k).1.strContent (execS1 iface w p k).2 = specS1 iface k (w.strContent p) := by
+  cases k with
+  | map f => exact strContent_newStream _ _ _
+  | filter f => exact strContent_newStream _ _ _
+  | reject f => exact strContent_newStream _ _ _
+  | notnil =>
+    simp only [execS1, specS1, strFilter]
+    rw [strContent_newStream]
+    cases iface with
+    | false =>
+      simp only [Spec.filterIdx, Spec.notNil, Bool.not_false, Bool.true_or]
+      rw [filterIdxFrom_noidx (fun _ => true)]; exact filter_const_true _
+    | true =>
+      simp only [Spec.filterIdx, Spec.notNil, Bool.not_true, Bool.false_or, if_true]
+      exact filterIdxFrom_noidx _ _ _
+  | distinct => exact strContent_newStream _ _ _
+  | clone => exact strClone_content w p
+  | reverse => exact strContent_newStream _ _ _
+  | sort c => exact strSort_content w p _
+  | sortidx c => exact strSortByIndex_content hw hp _
+  | rmitem vs =>
+    simp only [execS1, specS1, strRemoveItem]
+    split
+    · rename_i h; rw [isEmpty_eq_nil h, minus_nil]
+    · exact strContent_newStream _ _ _
+  | append vs => exact strAppend_content hw hp vs
+  | remove i =>
+    simp only [execS1, specS1]
+    cases iface with
+    | true =>
+      simp only [if_true]
+      have h := strHdr_ok hw p
+      have hret : (w.strRemoveI p i).2 = p := (strRemoveI_wf hw hp i).2.1
+      rw [hret]
+      exact ifaceRemove_content_of_bounds w p i hp h.1 (by have := h.2.1; have := h.2.2; omega) h.2.2
+    | false =>
+      simp only [Bool.false_eq_true, if_false, strRemoveG, Spec.removeAt, strContent_length hw p]
+      split
+      · exact strContent_newStream _ _ _
+      · rfl
+
+theorem strInter_content {w : World} (hw : Wf w) (p : Nat) (q : Option Nat) :
+    (w.strInter p q).1.strContent (w.strInter p q).2
+      = if (argContent w q).isEmpty then [] else Spec.inter (w.strContent p) (argContent w q) := by
+  have hnil : w.newNilStream.1.strContent w.newNilStream.2 = [] := by
+    simp [newNilStream, allocStr, strContent, strHdr, sliceContent, Slice.nil, List.getD_eq_getElem?_getD]
+  cases q with
+  | none => simpa [strInter, argContent] using hnil
+  | some q =>
+    show (w.strInter p (some q)).1.strContent (w.strInter p (some q)).2
+      = if (w.strContent q).isEmpty then [] else Spec.inter (w.strContent p) (w.strContent q)
+    simp only [strInter]
+    split
+    · rename_i h
+      have : (w.strContent q).isEmpty = true := by rw [(len_zero_iff hw q).mp h]; rfl
+      simp only [this, if_true]; exact hnil
+    · rename_i h
+      have : w.strContent q ≠ [] := fun e => h ((len_zero_iff hw q).mpr e)
+      have hne : (w.strContent q).isEmpty = false := by cases hc : w.strContent q <;> simp_all
+      simp only [hne, Bool.false_eq_true, if_false]; exact strContent_newStream _ _ _
+
+theorem strMinus_content {w : World} (hw : Wf w) (p : Nat) (q : Option Nat) :
+    (w.strMinus p q).1.strContent (w.strMinus p q).2 = Spec.minus (w.strContent p) (argContent w q) := by
+  cases q with
+  | none => simp [strMinus, argContent, minus_nil]
+  | some q =>
+    simp only [strMinus, argContent]
+    split
+    · rename_i h; rw [(len_zero_iff hw q).mp h, minus_nil]
+    · exact strContent_newStream _ _ _
+
+end FpgoVerif.C04
